@@ -39,7 +39,7 @@ from numbers import Number
 import numpy as np
 # from pyparsing import Literal, CaselessLiteral, Word, Combine, Optional, \
 #     ZeroOrMore, Forward, nums, alphas, ParserElement
-from sympy import Expr, Symbol, sympify
+from sympy import Expr, Function, Symbol, sympify
 
 # pyrates internal _imports
 from pyrates.backend.computegraph import ComputeGraph, ComputeNode
@@ -72,7 +72,9 @@ def _preprocess_dde_syntax(rhs: str) -> str:
 
 def _cached_sympify(s: str):
     if s not in _sympify_cache:
-        _sympify_cache[s] = sympify(s)
+        # `round` is a function of the equation language (numpy.round); without the local definition sympify
+        # resolves it to the Python builtin, which rejects symbolic arguments
+        _sympify_cache[s] = sympify(s, locals={'round': Function('round')})
     return _sympify_cache[s]
 
 # meta infos
